@@ -890,6 +890,8 @@ Inductive op :=
 | OpWsFrame (c : cid) (f : frame)
 | OpWsClose (c : cid)
 | OpApi (a : aid) (x : api)
+| OpCancel (c : cid)              (* the web server cancels the task serving WebSocket c (CancelledError / GreenletExit) *)
+| OpCancelPoll (r : rid)          (* ... or the task of the long-poll request r *)
 | OpAdvance (dt : Z).
 
 Definition apply_op (o : op) (choices : list nat) : M unit :=
@@ -914,6 +916,35 @@ Definition apply_op (o : op) (choices : list nat) : M unit :=
     let me := ntid s in
     modst (fun s => set_tasks (aset me {| t_task := TSvcStart; t_tout := false |} (tasks s)) (set_ntid (N.succ me) s)) ;;;
     run_api me a x ;;; settle SETTLE_FUEL choices
+  | OpCancel c =>
+    (* modelled for a task that is waiting for a frame of the upgrade handshake: the handler's `except BaseException` clears
+       `upgrading` and the exception leaves the request; cancelling any other task is not a stimulus of the model *)
+    k <- gconn c ;;
+    match k_waiter k with
+    | Some w =>
+      s <- getst ;;
+      match alookup w (tasks s) with
+      | Some e =>
+        match t_task e with
+        | TWsProbe r i _ | TWsUpgr r i _ =>
+          pconn c {| k_inbox := k_inbox k; k_cclosed := k_cclosed k; k_sclosed := k_sclosed k; k_waiter := None |} ;;;
+          upgrade_fail w i r RRaised ;;; settle SETTLE_FUEL choices
+        | _ => ret tt
+        end
+      | None => ret tt
+      end
+    | None => ret tt
+    end
+  | OpCancelPoll r =>
+    (* asyncio: poll() treats the cancellation of its wait like its time-out (the session ends with a transport error and the
+       request is answered 400); threads cannot be cancelled: not a stimulus there *)
+    if q_timeout_wins (c_quirks cfg) then
+      s <- getst ;;
+      match find (fun e => match t_task (snd e) with TPoll _ (PKGet r') _ => N.eqb r r' | _ => false end) (tasks s) with
+      | Some (t, _) => fire t ;;; settle SETTLE_FUEL choices
+      | None => ret tt
+      end
+    else ret tt
   | OpAdvance dt => s <- getst ;; advance 2000 (now s + dt)
   end.
 End WithConfig.
